@@ -19,7 +19,7 @@ one() {
   rm -rf $w
 }
 export -f one; export V
-props_for() { case $1 in R1-*) echo "C03 C08 C11 C12";; R2-*) echo "C01 C02 C07 C10";; R3-*) echo "C03 C04 C09";; R4-*) echo "C01 C09";; esac; }
+props_for() { case $1 in R1-*|S1-*) echo "C03 C08 C11 C12";; R2-*|S2-*) echo "C01 C02 C07 C10";; R3-*|S3-*) echo "C03 C04 C09";; R4-*|S4-*) echo "C01 C09";; esac; }
 { echo "# Behaviour-preserving refactorings vs. the registered checks"; echo; echo "| refactoring | test suite with it | checks (quick tier, Kani off) | first tool message |"; echo "|---|---|---|---|";
-  for d in $(ls $V/refactors | grep "^R[0-9]"); do echo "$d $(props_for $d)"; done | xargs -P $J -L 1 bash -c 'one "$0" "${*:1}"' | sort; } > $V/refactors/RESULTS.md
+  for d in $(ls $V/refactors | grep "^[RS][0-9]"); do echo "$d $(props_for $d)"; done | xargs -P $J -L 1 bash -c 'one "$0" "${*:1}"' | sort; } > $V/refactors/RESULTS.md
 cat $V/refactors/RESULTS.md
